@@ -72,4 +72,10 @@ InformationForm == (pending = {} /\ info.ok) => (P = info.P /\ x = info.x)
 Symmetric == IsSym(P)
 PosSemiDef == IsPSD(P)
 NotLarger == IsPSD(MSub(MOfInt(I.P0), P))
+\* the posterior variance of what was just measured lies between 0 and the measurement noise: H P' H' = R - R S^-1 R.
+\* (A sign condition: it survives any conditioning of the prior, which is how the replay takes it into the cond ~ 1e10 regime.)
+MeasuredVarianceBounded ==
+  order # <<>> =>
+    LET b == order[Len(order)]  V == MMul(MMul(Hb(b), P), MT(Hb(b)))
+    IN IsPSD(V) /\ IsPSD(MSub(Rb(b), V))
 =============================================================================
